@@ -26,13 +26,15 @@ MANIFEST = {
             "stream's own state and that no shared datum is read and written without "
             "synchronisation.",
     "design_ref": "DESIGN.md §6 C07",
-    "note": "ThreadSanitizer instruments the harness, all header-only code it includes and the "
-            "stream-facing translation units compiled into it (ActionDiagnostic, StepDiagnostic, "
-            "SimpleCalo, StepCollector, StepGatherAction, StepParams, SimpleCaloImpl, Stepper, "
-            "CoreState, ActionSequence, AuxStateVec, Logger, TrackInitParams, RngReseed); the "
-            "rest of libceleritas/liborange/libcorecel is NOT instrumented, so races entirely "
-            "inside those libraries are invisible to it. A clean differential run does not prove "
-            "the absence of races (schedules are sampled).",
+    "note": "ThreadSanitizer instruments the harness, all header-only code it includes and every "
+            "translation unit of src/celeritas/user, src/celeritas/global, src/corecel/data and "
+            "src/corecel/sys that the library build compiles here (read from build.ninja; 52 "
+            "files) plus Logger, TrackInitParams, RngReseed, SortTracksAction, TrackSortUtils, "
+            "StatusChecker and the three track-initialisation actions, all compiled INTO the "
+            "harness; the rest of libceleritas/liborange/libcorecel (physics, geometry, "
+            "materials) is NOT instrumented, so races entirely inside it are invisible. Each "
+            "configuration runs under 20 schedules perturbed by seeded yields/sleeps (VERIF_SEED). "
+            "A clean run does not prove the absence of races (schedules are sampled).",
 }
 
 # directories whose translation units (those the library build itself compiles here, read from
@@ -192,8 +194,10 @@ def run(ctx):
             for asg in itertools.product(range(k), repeat=n_ev):
                 a = ",".join(map(str, asg))
                 reps = 1 if quick else 2
-                for _ in range(reps):
-                    jobs.append((c, "thr", base + " streams=%d assign=%s mode=threads" % (k, a)))
+                for r_ in range(reps):
+                    sched = ctx.rng.below(1 << 30) if r_ or ctx.rng.chance(1, 2) else 0
+                    jobs.append((c, "thr", base + " streams=%d assign=%s mode=threads sched=%d"
+                                 % (k, a, sched)))
         # many streams, many events
         for k in ([4, 16] if quick else [4, 8, 16, 16]):
             n = ctx.rng.range(k, 2 * k)
@@ -201,7 +205,8 @@ def run(ctx):
             a = ",".join(map(str, asg))
             jobs.append((c, "refn", base + " streams=1 assign=%s mode=serial" % ",".join(["0"] * n)))
             jobs.append((c, "ser", base + " streams=%d assign=%s mode=serial" % (k, a)))
-            jobs.append((c, "thr", base + " streams=%d assign=%s mode=threads" % (k, a)))
+            jobs.append((c, "thr", base + " streams=%d assign=%s mode=threads sched=%d"
+                         % (k, a, ctx.rng.below(1 << 30))))
             if prob == "mock":
                 jobs.append((c, "ser", base + " streams=%d assign=%s mode=serial calo=1" % (k, a)))
                 jobs.append((c, "thr", base + " streams=%d assign=%s mode=threads calo=1" % (k, a)))
@@ -250,7 +255,7 @@ def run(ctx):
         by_cfg = {}
         for (cc, kind, line), o in zip(jobs, outs):
             if cc == c and kind in ("ser", "thr") and o["ok"]:
-                key = line.replace("mode=threads", "").replace("mode=serial", "")
+                key = re.sub(r" sched=\d+", "", line).replace("mode=threads", "").replace("mode=serial", "")
                 by_cfg.setdefault(key, {})[kind] = o
         for key, d in by_cfg.items():
             if "ser" in d and "thr" in d:
@@ -264,43 +269,61 @@ def run(ctx):
                                   {"harness": "harness/streams.cc", "ops_A": [d["ser"]["line"]],
                                    "ops_B": [d["thr"]["line"]]})
 
-    # ---- ThreadSanitizer (thorough tier)
+    # ---- ThreadSanitizer (thorough tier): every configuration under >= 20 random schedules
     tsan = {"ran": False}
     if not quick:
-        texe, tlog = build_tsan()
+        texe, tlog, used, skipped = build_tsan()
+        tsan.update({"instrumented_sources": len(used), "not_buildable_standalone": skipped})
         if texe is None:
             ctx.notes.append("TSan build failed: " + tlog[-500:])
             tsan["build_failed"] = True
         else:
             tsan["ran"] = True
-            lines = [
+            configs = [
                 "run prob=mock slots=8 streams=4 prims=6 seed=3 assign=0,1,2,3,0,1,2,3 mode=threads",
                 "run prob=mock slots=8 streams=8 prims=4 seed=5 assign=0,1,2,3,4,5,6,7 mode=threads calo=1",
                 "run prob=simple slots=4 streams=3 prims=1 seed=2 assign=0,1,2 mode=threads",
                 "run prob=mock slots=4 streams=16 prims=3 seed=9 assign=%s mode=threads"
                 % ",".join(str(i % 16) for i in range(24)),
+                "run prob=mock slots=16 streams=2 prims=12 seed=11 assign=0,1,1,0,0,1 mode=threads",
             ]
-            reports = []
-            for l in lines:
+            n_sched = 20
+            tjobs = []
+            for ci, c in enumerate(configs):
+                for k in range(n_sched):
+                    sched = 1 + (ctx.seed * 1000003 + ci * 7919 + k * 104729) % (1 << 30)
+                    tjobs.append(c + " sched=%d" % sched)
+
+            def trun(l):
                 rc, out = vlib.sh([texe], input=l + "\n", timeout=3600,
                                   env=dict(ENV, TSAN_OPTIONS="halt_on_error=0 report_signal_unsafe=0"))
-                for r in tsan_reports(out):
+                done = any(x == "done" for x in out.split("\n"))
+                return l, tsan_reports(out), done, out[-600:]
+            with ThreadPoolExecutor(max_workers=4) as ex:
+                touts = list(ex.map(trun, tjobs))
+            reports = []
+            for l, reps, done, tail in touts:
+                for r in reps:
                     r["op"] = l
                     reports.append(r)
-            tsan["reports"] = len(reports)
-            seen = set()
+                if not done:
+                    ctx.violation("tsan-run-failed", "TSan harness run did not complete: " + tail[-300:],
+                                  {"ops": [l]})
+            tsan.update({"configurations": len(configs), "schedules_per_configuration": n_sched,
+                         "runs": len(tjobs), "reports": len(reports)})
+            seen = {}
             for r in reports:
                 key = "tsan:" + r["kind"].replace(" ", "-") + ":" + r["where"]
-                if key in seen:
+                seen[key] = seen.get(key, 0) + 1
+                if seen[key] > 1:
                     continue
-                seen.add(key)
                 ctx.violation(key, f"ThreadSanitizer: {r['kind']} in {r['where']} with concurrent "
                               "streams over shared params",
                               {"harness": "harness/streams.cc (TSan build: tools/checks/c07.py "
                                           "build_tsan)", "ops": [r["op"]], "report": r["head"],
                                "contradicts": "C07: no shared datum read and written concurrently "
                                               "without synchronisation"})
-            tsan["distinct"] = sorted(seen)
+            tsan["distinct"] = dict(sorted(seen.items()))
 
     if broken and not ctx.violations:
         ctx.violation("unproved", "; ".join(broken)[:600], {"no_longer_checks": broken},
@@ -308,7 +331,7 @@ def run(ctx):
     if not quick and ps["build"]["ok"]:
         common.leanchecker(ctx, ["CelerVerif.Props.C07"])
     ctx.coverage.update({
-        "evaluations": len(jobs) + (4 if tsan["ran"] else 0), "distinct_nontrivial": len(distinct),
+        "evaluations": len(jobs) + tsan.get("runs", 0), "distinct_nontrivial": len(distinct),
         "rule": "one evaluation = one harness run (all events of one event->stream assignment, "
                 "threaded or serial); distinct = distinct completed run lines; every run "
                 "transports >= 2 events",
@@ -323,7 +346,7 @@ def run(ctx):
 def replay(ctx, data):
     r = data["replay"]
     if data.get("key", "").startswith("tsan:"):
-        texe, tlog = build_tsan()
+        texe, tlog, _, _ = build_tsan()
         if texe is None:
             print("TSan build failed", tlog[-500:])
             return 2
